@@ -240,6 +240,7 @@ func runC12(c *Ctx) int {
 	n := c.Pick(480, 30000)
 	progs := apiPrograms(c.Seed+200, n, []string{"mixed", "buckets", "big", "structural"}, func(i int, cfg *gen.Config) {
 		cfg.ROProbe = 0
+		cfg.FailCommit = 0.1
 		// option combinations: grow-sync, initial map size, backend changes on reopen
 		cfg.Opts.NoGrowSync = i%3 == 0
 		if i%5 == 0 {
